@@ -1184,3 +1184,79 @@ func ZeroOnlyUnder(fn *ssa.Function, v ssa.Value, under string) (bool, string) {
 	walk(v)
 	return bad == "", bad
 }
+
+// ErrNilImplies: is the block guarded by a test "v == nil" (taken) where v is
+// the error result of a call of `callee`, or a phi every alternative of which
+// is either such a result or an error value that is known non-nil on the edge
+// that carries it into the phi (so v == nil can only mean the callee's error
+// was nil)? Tolerates "if err == nil { err = f() }; if err != nil {...}".
+func ErrNilImplies(fn *ssa.Function, target *ssa.BasicBlock, callee string) bool {
+	isCalleeErr := func(v ssa.Value) bool {
+		switch x := v.(type) {
+		case *ssa.Call:
+			return CalleeName(x) == callee
+		case *ssa.Extract:
+			if call, ok := x.Tuple.(*ssa.Call); ok {
+				return CalleeName(call) == callee
+			}
+		}
+		return false
+	}
+	gi := guardIndex(fn)
+	t := NewTermer(fn)
+	var okVal func(v ssa.Value, depth int) bool
+	okVal = func(v ssa.Value, depth int) bool {
+		if isCalleeErr(v) {
+			return true
+		}
+		phi, ok := v.(*ssa.Phi)
+		if !ok || depth > 3 {
+			return false
+		}
+		for i, e := range phi.Edges {
+			if okVal(e, depth+1) {
+				continue
+			}
+			// known non-nil on its edge?
+			pred := phi.Block().Preds[i]
+			lits := append([]string{}, gi[pred.Index]...)
+			for _, ce := range CondEdges(fn) {
+				if ce.From == pred && ce.Succ < len(pred.Succs) && pred.Succs[ce.Succ] == phi.Block() {
+					l := ce.Atom
+					if !ce.Holds {
+						l = "!" + l
+					}
+					lits = append(lits, l)
+				}
+			}
+			want := "!(" + t.T(e) + " == nil)"
+			found := false
+			for _, l := range lits {
+				if termEq(l, want) {
+					found = true
+				}
+			}
+			if !found {
+				return false
+			}
+		}
+		return true
+	}
+	return GuardedBy(fn, target, func(e Edge) bool {
+		bo, ok := e.Cond.(*ssa.BinOp)
+		if !ok || (bo.Op != token.EQL && bo.Op != token.NEQ) {
+			return false
+		}
+		var v ssa.Value
+		if k, isC := bo.Y.(*ssa.Const); isC && k.IsNil() {
+			v = bo.X
+		} else if k, isC := bo.X.(*ssa.Const); isC && k.IsNil() {
+			v = bo.Y
+		} else {
+			return false
+		}
+		// the edge on which v == nil holds
+		isNilEdge := (bo.Op == token.EQL && e.Succ == 0) || (bo.Op == token.NEQ && e.Succ == 1)
+		return isNilEdge && okVal(v, 0)
+	})
+}
